@@ -78,7 +78,10 @@ Proof.
   unfold ov_rollback. destruct (ov_get _ ov); [|discriminate]. unfold rbind.
   destruct (lift _) as [f1|e0|] eqn:El; [|exfalso; eapply lift_no_err; eassumption|discriminate].
   destruct (pf_rename _); [|discriminate]. destruct (move_out f1).
-  destruct (ov_get _ _); [|discriminate]. destruct (move_in _ _); discriminate.
+  destruct (ov_get _ _); [|discriminate]. destruct (move_in _ _); [|discriminate].
+  destruct (st_rename_undo s) as [[[od nd] np]|]; [|discriminate].
+  destruct (bytes_eqb _ _); [discriminate|].
+  destruct (ov_get _ _); [|discriminate]. destruct (ov_get _ _); discriminate.
 Qed.
 
 Lemma late_rej : forall fuel dm st index, late_only (rollback_and_save_rej fuel dm st index).
